@@ -28,6 +28,7 @@ class E5(object):
         self.violations = []   # (source, where, detail, sample)
         self.groups_compared = 0
         self._done_loops = set()
+        self._vis = {}
 
     # -- projection ---------------------------------------------------------------
     def project(self, events, source):
@@ -68,8 +69,16 @@ class E5(object):
             elif k == "callback":
                 out.append(("cb", e["role"]))
             elif k == "loop":
-                out.append(("loop", e["site"][:2]))
+                if self._loop_visible(e, source):
+                    out.append(("loop", e["site"][:2]))
         return tuple(out)
+
+    def _loop_visible(self, loop_ev, source):
+        key = (id(loop_ev), source)
+        if key not in self._vis:
+            self._vis[key] = any(self.project(alt["events"], source)
+                                 for alt in loop_ev["alts"])
+        return self._vis[key]
 
     # -- comparison -----------------------------------------------------------------
     def compare_paths(self, entry, source):
